@@ -1,8 +1,8 @@
 //go:build verif
 
-//verif:package trillian/ctfe
+//verif:package *
 
-package ctfe
+package PKGNAME
 
 // Reference encoders written from the text of RFC 6962 section 3 and RFC 5246 section 4,
 // independent of tls.Marshal and of the struct tags in the repository.
